@@ -90,15 +90,34 @@ class RefPlayer(object):
     def defaults_string(self):
         return 'MF O4 L4 T120 MN'
 
+    def state(self):
+        return (self.octave, self.length, self.tempo, self.gap, self.foreground)
+
     def play(self, mml, variables, events, kinds):
         """
         Interpret; appends (freq, sounding, silence) to `events` and command kinds to `kinds`;
         raises MalformedMML at the first malformed command. State changes and events made
-        before the error stay (the caller resynchronises the state explicitly).
+        before the error stay; `self.trace` holds the state before the string and after every
+        command interpreted, `self.touched` the unassigned variables referred to by name
+        (the caller resynchronises the state explicitly where it cannot be known).
         """
         s = list(mml)
         i = [0]
         depth = [0]
+        self.trace = [self.state()]
+        self.touched = set()
+        # a pointer to an array element goes stale when a scalar is created (arrays move up):
+        # a string that holds one and also creates a variable by naming it is not judged
+        array_pointer = re.search('\x01[^\x02]*\(', mml) is not None
+
+        def value(nm, named):
+            if nm in variables:
+                return variables[nm]
+            if named:
+                if array_pointer:
+                    raise MalformedMML('unspecified-stale-array-pointer')
+                self.touched.add(nm)
+            return '' if nm.endswith('$') else 0
 
         def skip():
             while i[0] < len(s) and s[i[0]] == ' ':
@@ -137,13 +156,13 @@ class RefPlayer(object):
                 nm = ''.join(s[i[0] + 1:j]).upper()
                 i[0] = j + 1
                 kinds.add('varptr')
-                return nm
+                return value(nm, False)
             if peek() == '':
                 raise MalformedMML('missing-variable')
             nm = name()
             if read() != ';':
                 raise MalformedMML('missing-semicolon')
-            return nm
+            return value(nm, True)
 
         def digits():
             j = i[0]
@@ -164,7 +183,7 @@ class RefPlayer(object):
             if c == '=':
                 i[0] += 1
                 kinds.add('=var')
-                v = variables.get(varref(), 0)
+                v = varref()
                 if isinstance(v, str):
                     raise MalformedMML('type')
                 return int(v)
@@ -280,12 +299,13 @@ class RefPlayer(object):
                 depth[0] += 1
                 if depth[0] > 50:
                     raise K.HarnessError('X recursion in generated MML')
-                sub = variables.get(varref(), '')
+                sub = varref()
                 if not isinstance(sub, str):
                     raise MalformedMML('type')
                 s[i[0]:i[0]] = list(sub)
             else:
                 raise MalformedMML('unknown-command')
+            self.trace.append(self.state())
 
     def run(self, mml, variables):
         """-> (events, error class or None, command kinds)"""
